@@ -42,6 +42,16 @@ def witness_cookie(k):
 
 WITNESS = {"F-C04-cookie-params-dropped": witness_cookie}
 
+
+def bounded_random_documents(tier, seed):
+    """run-time counterpart over the random corpus documents: every operation called through httpx.MockTransport with typed argument values (strings with
+    reserved characters, integers, booleans, arrays), all arguments and required-only: one request, method, path, query, headers, JSON body"""
+    from props import randrt
+    return randrt.bounded("requests", tier, seed)
+
+
+BOUNDED = [bounded_random_documents]
+
 MANIFEST = {
     "category": "other",
     "text": "Deductive verification of the emitted request-building code itself, per operation shape: unbounded in run-time argument values "
